@@ -118,6 +118,62 @@ func TestC04(t *testing.T) {
 			r.Violation(sig+":liveness", desc+": "+why, map[string]any{"requests": reqs, "steps": steps})
 		}
 	}
+	// the real process: a slice of the hostile sequences is also sent to the real binary over TCP; the process must
+	// stay alive and keep answering
+	var bin *BinSrv
+	if binPath() != "" {
+		logDir := binLogDir("C04")
+		must(os.MkdirAll(logDir, 0o755))
+		b, err := startBin([]string{"server", "--listen-addr=127.0.0.1:0", "--root=" + w.Root, "--allow-write"}, cleanEnv(logDir), w.Dir, filepath.Join(logDir, "server.log"), 30*time.Second)
+		if err != nil {
+			r.HarnessError("cannot start the real binary: " + err.Error())
+			return
+		}
+		bin = b
+		defer os.RemoveAll(logDir)
+		defer bin.Stop()
+	}
+	binSession := func(desc string, reqs []Req) {
+		if bin == nil {
+			return
+		}
+		c, err := dialFrom(bin.Addr, "", 20*time.Second)
+		if err == nil {
+			for _, rq := range reqs {
+				if rq.Op == opReadFile || rq.Op == opReadFileCritical {
+					if rq.Limit > 1<<20 {
+						continue // a 2 GiB critical read is legal but would only measure loopback throughput
+					}
+				}
+				c.c.SetDeadline(time.Now().Add(20 * time.Second))
+				if _, err := c.c.Write(rq.Encode()); err != nil {
+					break
+				}
+				buf := make([]byte, 1<<16)
+				c.c.SetReadDeadline(time.Now().Add(30 * time.Millisecond))
+				for {
+					if _, err := c.c.Read(buf); err != nil {
+						break
+					}
+					c.c.SetReadDeadline(time.Now().Add(30 * time.Millisecond))
+				}
+			}
+			c.Close()
+		}
+		r.Trace(1)
+		p, err := dialFrom(bin.Addr, "", 20*time.Second)
+		alive := false
+		if err == nil {
+			ok, ex, _ := p.statProbe("/", 20*time.Second)
+			alive = ok && ex
+			p.Close()
+		}
+		if !alive || bin.Exited() {
+			r.Violation("C04:real-binary-died", sprintf("after the session [%s] the real server process no longer serves (exited=%v): %s", desc, bin.Exited(), lastLines(bin.Log(), 6)), map[string]any{"requests": reqs})
+			bin.Stop()
+			bin = nil
+		}
+	}
 	// (a) hostile request sequences
 	n := len(alpha)
 	total := 1
@@ -149,6 +205,9 @@ func TestC04(t *testing.T) {
 			w.MkDir("w")
 		}
 		runCase("C04:requests", strings.Join(reqStrings(seq), " ; "), true, seq)
+		if (k+int(r.Seed))%97 == 0 {
+			binSession(strings.Join(reqStrings(seq), " ; "), seq)
+		}
 	}
 	idx = (idx/1000 + 1) * 1000
 	// (b1) PARAM.SFO content
